@@ -30,7 +30,10 @@ B1950 = 2433282.4235
 
 
 def bound(tier):
-    return "epoch lattices as in the rule (both tiers)"
+    if tier == "thorough":
+        return ("frames: 971 epochs 1000..3000 x 22 target frames; reflection/obliquity/nutation: every 5th year "
+                "x 12 phases; coarse Sun every 7.3 days 1800..2200")
+    return "epoch lattices as in the rule"
 
 
 def y2jde(y):
@@ -309,9 +312,12 @@ def run_forms(block, ctx):
 
 def clauses(tier):
     frames = [y2jde(1000 + i * 12.37) for i in range(162)]
+    if tier == "thorough":
+        frames = sorted(set(frames + [y2jde(1000 + i * 2.473) for i in range(809)]))
     wide = []
-    for y in range(-2000, 4001, 25):
-        for off in (1.0, 92.0, 183.0, 274.0):
+    for y in range(-2000, 4001, 5 if tier == "thorough" else 25):
+        for off in ((1.0, 31.0, 62.0, 92.0, 123.0, 153.0, 183.0, 214.0, 244.0, 274.0, 305.0, 335.0)
+                    if tier == "thorough" else (1.0, 92.0, 183.0, 274.0)):
             j = y2jde(y) + off
             if j < y2jde(4000) - 2:
                 wide.append(j)
@@ -319,7 +325,7 @@ def clauses(tier):
     j = y2jde(1800)
     while j <= y2jde(2200):
         coarse.append(j)
-        j += 73.0
+        j += 7.3 if tier == "thorough" else 73.0
     return [
         Clause("reflection_obliquity_nutation", chunks(wide, 32), run_epochs,
                lambda c: [m for _, m, _ in check_reflection(c["jde"]) + check_obliquity(c["jde"])], floor=100),
